@@ -81,8 +81,11 @@ let bin_code = function "add" -> 0 | "sub" -> 1 | "mul" -> 2 | "div" -> 3 | "mod
                        | "min" -> 6 | "max" -> 7 | o -> failwith ("binop " ^ o)
 let cmp_code = function "gt" -> 0 | "gte" -> 1 | "lt" -> 2 | "lte" -> 3 | "eq" -> 4 | "ne" -> 5
                        | o -> failwith ("cmpop " ^ o)
-let un_code = function "neg" -> 0 | "square" -> 1 | "cube" -> 2 | "abs" -> 3 | "sign" -> 4
-                      | o -> failwith ("unop " ^ o)
+let un_code s =
+  match String.split_on_char '.' s with
+  | ["clamp"; lo; hi] -> 100 + 16 * int_of_string lo + int_of_string hi
+  | _ -> (match s with "neg" -> 0 | "square" -> 1 | "cube" -> 2 | "abs" -> 3 | "sign" -> 4
+                      | o -> failwith ("unop " ^ o))
 
 let parse_mode (s : string) : mode =
   match String.split_on_char '.' s with
@@ -118,6 +121,7 @@ let parse_op (o : string) (impl_step : string) : zop =
   | "cmp" -> ZCmp (z_of_int (cmp_code f.(1)), nat 2, nat 3, f.(4) = "same", parse_cmode f.(5), not (Array.length f > 6 && f.(6) = "method"))
   | "cmps" -> ZCmpS (z_of_int (cmp_code f.(1)), nat 2, zi 3, f.(4) = "left", f.(5) = "same", parse_cmode f.(6))
   | "un" -> ZUn (z_of_int (un_code f.(1)), nat 2, parse_mode f.(3))
+  | "apply" -> ZApply (z_of_int (un_code f.(1)), nat 2, parse_mode f.(3))
   | "reduce" ->
     let code = (match f.(1) with "sum" -> 0 | "min" -> 1 | "max" -> 2 | o -> failwith o) in
     ZReduce (z_of_int code, nat 2, zs f.(3), (String.length impl_step >= 3 && String.sub impl_step 0 3 = "err"))
@@ -241,6 +245,7 @@ let gname = function
   | GShapeMisfit -> "shape-misfit"
   | GAliasedStorage -> "aliased-storage"
   | GLateRefusal -> "late-refusal"
+  | GApplyDest -> "apply-dest"
   | GOther -> "other"
 
 let operand_ids (o : string) : int list =
@@ -251,7 +256,7 @@ let operand_ids (o : string) : int list =
   | "bin" | "cmp" -> [int_of_string f.(2); int_of_string f.(3)]
   | "fma" -> [int_of_string f.(1); int_of_string f.(2); int_of_string f.(3)]
   | "fmas" -> [int_of_string f.(1); int_of_string f.(3)]
-  | "bins" | "cmps" | "un" | "reduce" | "arg" -> [int_of_string f.(2)]
+  | "bins" | "cmps" | "un" | "apply" | "reduce" | "arg" -> [int_of_string f.(2)]
   | "stack" | "concat" -> int_of_string f.(1) :: ints f.(3)
   | "repeat" | "trace" -> [int_of_string f.(1)]
   | "lin" -> [int_of_string f.(2); int_of_string f.(3)]
@@ -320,7 +325,7 @@ let run_prog_gen (kept : bool) dt (prog : string) (impl : string) : outcome =
                   | Some g -> g f | None -> operand_ids o in
                 let gn = gname (zguard before op) in
                 let gn = if gn = "other" then "L" ^ String.concat "," (List.map (layout_tag before) ids) else gn in
-                cls := f.(0) ^ (if Array.length f > 1 && (f.(0) = "bin" || f.(0) = "bins" || f.(0) = "cmp" || f.(0) = "cmps" || f.(0) = "un" || f.(0) = "reduce" || f.(0) = "arg" || f.(0) = "lin") then "." ^ f.(1) else "") ^ ":" ^ gn
+                cls := f.(0) ^ (if Array.length f > 1 && (f.(0) = "bin" || f.(0) = "bins" || f.(0) = "cmp" || f.(0) = "cmps" || f.(0) = "un" || f.(0) = "apply" || f.(0) = "reduce" || f.(0) = "arg" || f.(0) = "lin") then "." ^ List.hd (String.split_on_char '.' f.(1)) else "") ^ ":" ^ gn
                        ^ ":" ^ symptom (strip_model_only mstr) sstr;
                 (* after a divergence the two states are no longer related *)
                 s := None
